@@ -201,6 +201,22 @@ def assumptions(prop):
             "axioms": sorted(set(axioms)), "bad_axioms": bad_axioms, "log": out[-2000:]}
 
 
+def coqchk(prop):
+    """independent re-check of Props/<prop>.vo and everything it depends on (thorough tier)"""
+    rc, out = sh(["coqchk", "-o", "-silent", "-Q", ".", "BV", "BV.Props.%s" % prop], cwd=COQ, timeout=1800)
+    axioms = []
+    m = re.search(r"\* Axioms:(.*?)\n\s*\n\* Constants", out, flags=re.S)
+    if m:
+        axioms = [l.strip() for l in m.group(1).split("\n") if l.strip() and l.strip() != "<none>"]
+    flags = {}
+    for key in ("type-in-type", "unsafe (co)fixpoints", "positivity is assumed"):
+        mm = re.search(r"%s: (.*)" % re.escape(key), out)
+        flags[key] = mm.group(1).strip() if mm else "?"
+    bad = [a for a in axioms if not any(a.endswith(x) or x in a for x in ALLOWED_AXIOMS)]
+    ok = rc == 0 and not bad and all(v == "<none>" for v in flags.values())
+    return {"ok": ok, "rc": rc, "axioms": axioms, "bad_axioms": bad, "flags": flags, "log": out[-1500:]}
+
+
 def build_ocaml():
     """extraction + ocamlopt of the correspondence checkers (rebuilt when inputs change)"""
     os.makedirs(OCAML_BUILD, exist_ok=True)
